@@ -135,6 +135,8 @@ class Graph:
         so = ort.SessionOptions()
         so.graph_optimization_level = ort.GraphOptimizationLevel.ORT_DISABLE_ALL
         so.log_severity_level = 4
+        so.intra_op_num_threads = 1
+        so.inter_op_num_threads = 1
         try:
             self.sess = ort.InferenceSession(self.proto.SerializeToString(), so, providers=["CPUExecutionProvider"])
         except Exception as e:
@@ -264,9 +266,26 @@ def make_recorder():
         def _eval(self, schema, inputs, attributes, closure):
             self.log.append((schema.name, [None if i is None else np.asarray(getattr(i, "value", i)) for i in inputs],
                              dict(attributes)))
-            return super()._eval(schema, inputs, attributes, closure)
+            return _call_ort_1thread(ev, schema, inputs, attributes, closure)
 
     return Recorder()
+
+
+def _call_ort_1thread(ev, schema, args, kwargs, implicit_args):
+    """evaluator._call_ort with a single-threaded session (creating a thread pool per op call dominates the cost of
+    eager evaluation); same model construction (_prepare_model_and_inputs_for_eager), same result conversion."""
+    import onnxruntime as ort
+    model, session_run_input, _inputs = ev._prepare_model_and_inputs_for_eager(schema, args, kwargs, implicit_args)
+    so = ort.SessionOptions()
+    so.intra_op_num_threads = 1
+    so.inter_op_num_threads = 1
+    so.log_severity_level = 4
+    try:
+        session = ort.InferenceSession(model.SerializeToString(), so, providers=("CPUExecutionProvider",))
+        result = session.run(None, session_run_input)
+    except Exception as e:
+        raise ev.EagerModeError(f"Unable to execute model operator {schema.name!r} due to {e!r}") from e
+    return [ev._numpy_to_onnxscript_value(x) for x in result]
 
 
 def eager_run(fn, X, vals):
